@@ -651,6 +651,42 @@ func runBombs(c *core.Case) {
 				b = append(append(b, 0xFC), uv(uint64(size))...)
 			}
 		}
+		// every third case the announced elements really start to arrive: more of them than the
+		// decoder preallocates (64 KiB worth), far fewer than announced
+		if c.Index%3 == 2 && (field == 1 || field == 5 || field == 6 || field == 7) && size >= 1<<20 && size <= 1<<31-1 {
+			var elem []byte
+			n := 0
+			switch field {
+			case 1, 5: // i64: preallocation 8192 / 4096 elements
+				n = 8192 + r.Range(1, 600)
+				elem = []byte{0, 0, 0, 0, 0, 0, 0, 7}
+				if p.compact {
+					elem = []byte{14}
+				}
+			case 6: // list<list<string>>: 24-byte elements, 2730 preallocated
+				n = 2730 + r.Range(1, 300)
+				elem = []byte{11, 0, 0, 0, 0}
+				if p.compact {
+					elem = []byte{0x08}
+				}
+			case 7: // list<struct>: 136-byte elements, 481 preallocated
+				n = 481 + r.Range(1, 100)
+				elem = []byte{0}
+			}
+			tail = bytes.Repeat(elem, n)
+			if field == 5 { // set elements must differ to stay in the map
+				tail = tail[:0]
+				for i := 0; i < n; i++ {
+					if p.compact {
+						tail = append(tail, uv(uint64(i)<<1)...)
+					} else {
+						tail = append(tail, be(0)...)
+						tail = append(tail, be(uint32(i))...)
+					}
+				}
+			}
+			c.Count("size-bombs.with-partial-content", 1)
+		}
 		b = append(b, tail...)
 		c.Journal(fmt.Sprintf("size-bomb|%s|field%d|%#x", p.name, field, size))
 		_, o := decode(p, b, t, false)
@@ -769,7 +805,7 @@ func runReaders(c *core.Case) {
 func init() {
 	core.Register(&core.Monitor{
 		Prop:    "C08",
-		Rule:    "prefixes (struct targets, and every third case a bare list/set/map/string/number/pointer target): every prefix (all of them up to 400 bytes, 200 evenly spaced beyond) of a specification-conformant encoding of a generated value, both protocols: no panic, an error, io.EOF only for the empty input and an error that Is io.ErrUnexpectedEOF otherwise; the whole encoding decodes to the value; with 1-4 bytes appended Unmarshal reports an error. unknown-fields: fields with undeclared ids (negative, below/above/between the declared ones, at 63/64/65/127/128/129/32767) holding values of every thrift type incl. nested lists, sets, maps and structs are inserted into every struct level of the encoding: the decoded value is unchanged (strict and non-strict). required: the encoding with one required field removed yields *MissingField naming that field; an 8-step history of failing and succeeding decodes of one type gives each step the outcome it has in isolation; one field re-typed yields *TypeMismatch from a strict Decoder and no fault from a non-strict one. mutated / random: bit flips, byte substitutions, deletions, huge big-endian and varint sizes spliced into valid encodings, and random bytes biased to header values: no panic; bytes allocated (runtime.MemStats.TotalAlloc around the second and later calls for a type) within 1 MiB (64 KiB of preallocation per nesting level of the decoder, with map overhead) + 4 x len(input) x (largest element size of the target type incl. one bit per id of a struct's id range + 64). size-bombs: list, set, map, string and binary headers announcing 2^16 .. 2^32-1 elements followed by 0-23 bytes: rejected within the same allocation budget. readers: every Reader method of both protocols on short arbitrary inputs: no panic, <= 256 KiB allocated, no negative sizes, fixed-width reads fail on short input.",
+		Rule:    "prefixes (struct targets, and every third case a bare list/set/map/string/number/pointer target): every prefix (all of them up to 400 bytes, 200 evenly spaced beyond) of a specification-conformant encoding of a generated value, both protocols: no panic, an error, io.EOF only for the empty input and an error that Is io.ErrUnexpectedEOF otherwise; the whole encoding decodes to the value; with 1-4 bytes appended Unmarshal reports an error. unknown-fields: fields with undeclared ids (negative, below/above/between the declared ones, at 63/64/65/127/128/129/32767) holding values of every thrift type incl. nested lists, sets, maps and structs are inserted into every struct level of the encoding: the decoded value is unchanged (strict and non-strict). required: the encoding with one required field removed yields *MissingField naming that field; an 8-step history of failing and succeeding decodes of one type gives each step the outcome it has in isolation; one field re-typed yields *TypeMismatch from a strict Decoder and no fault from a non-strict one. mutated / random: bit flips, byte substitutions, deletions, huge big-endian and varint sizes spliced into valid encodings, and random bytes biased to header values: no panic; bytes allocated (runtime.MemStats.TotalAlloc around the second and later calls for a type) within 1 MiB (64 KiB of preallocation per nesting level of the decoder, with map overhead) + 4 x len(input) x (largest element size of the target type incl. one bit per id of a struct's id range + 64). size-bombs: list, set, map, string and binary headers announcing 2^16 .. 2^32-1 elements followed by 0-23 bytes, or by slightly more real elements than the decoder preallocates: rejected within the same allocation budget. readers: every Reader method of both protocols on short arbitrary inputs: no panic, <= 256 KiB allocated, no negative sizes, fixed-width reads fail on short input.",
 		Trusted: []string{"harness/gen/tspec encoders for the valid encodings", "runtime.MemStats.TotalAlloc as the allocation meter (single goroutine)", "errors.Is(err, io.ErrUnexpectedEOF) as the 'unexpected-EOF class'"},
 		Subs: []core.Sub{
 			{Name: "prefixes", N: core.Const(1500, 60000), Run: runPrefixes},
